@@ -3,6 +3,8 @@
 package c16
 
 import (
+	"strings"
+	"errors"
 	"testing"
 
 	"github.com/cocosip/go-dicom-codecs/codec"
@@ -282,6 +284,45 @@ func Check(c *Case) (o core.Outcome) {
 			o.Fail = fail("malformed", "%v", err)
 			return
 		}
+		// packet level: every tile's data must divide exactly into the packets the header
+		// announces (independent T.800 Annex B reader)
+		var t2u *walk.ErrT2Unsupported
+		st, err := j.WalkPackets()
+		switch {
+		case errors.As(err, &t2u):
+			o.Label("packets-not-modelled")
+		case err != nil && len(j.Parts) > 1 && !strings.Contains(err.Error(), "COD declares"):
+			// Multi-tile streams: the library's tile geometry is the subject of the open
+			// findings KF-C19-1/2; where neither T.800's nor a tile-local anchoring divides the
+			// data the packet-level check is inconclusive (counted), not a C16 verdict.
+			o.Label("packets-unreadable-tiled")
+			core.Count("packets_unreadable_tiled", 1)
+		case err != nil:
+			o.Fail = fail("packets", "%v", err)
+			return
+		default:
+			o.Label("packets-walked")
+			if st.Packets >= 50 {
+				o.Label("packets>=50")
+			}
+			if st.HeaderFF > 0 {
+				o.Label("packet-header-bit-stuffing")
+			}
+			if st.HeaderStuffed > 0 {
+				o.Label("packet-header-ends-FF")
+			}
+			if st.Precincts > 1 {
+				o.Label("precincts>1")
+			}
+			if st.TileLocalGeometry {
+				o.Label("packets-tile-local-geometry")
+			}
+			if st.OmitsEmptyPrecincts {
+				o.Label("packets-of-empty-precincts-omitted")
+			}
+			core.Count("packets_walked", int64(st.Packets))
+			core.Count("packet_headers_ending_FF", int64(st.HeaderStuffed))
+		}
 		ssiz := byte(im.P - 1)
 		if im.Signed {
 			ssiz |= 0x80
@@ -368,4 +409,41 @@ func Check(c *Case) (o core.Outcome) {
 }
 
 func TestRapid(t *testing.T)  { core.RunRapid(t, ID, Gen, Check) }
+
+// TestPackets: single-tile JPEG 2000 frames with many packets (layers x resolutions x
+// components) over noise, so that packet headers of every bit length occur and some end
+// exactly on a byte boundary with a 0xFF byte (the terminal stuffing rule of B.10.1). About
+// one non-empty packet in two thousand does.
+func TestPackets(t *testing.T) {
+	shard, shards := core.EnvInt("VERIF_SHARD", 0), max(1, core.EnvInt("VERIF_SHARDS", 1))
+	seed := core.EnvInt("VERIF_SEED", 1)
+	n := 1920
+	if core.Thorough() {
+		n = 32000
+	}
+	g := rapid.Custom(func(t *rapid.T) *Case {
+		// Measured on the unchanged tree: a header ends in 0xFF mostly when a packet carries a
+		// single code-block whose contribution is 255 (511, ...) bytes long, i.e. a 16x16
+		// block of 8-bit noise: frames of (16 x 2^L)^2 samples with L levels give that in
+		// about 7% of the frames, other shapes almost never (1 in 20000 packets).
+		lv := rapid.IntRange(0, 3).Draw(t, "levels")
+		side := func(label string) int {
+			return (16 << lv) * rapid.SampledFrom([]int{100, 100, 100, 100, 94, 97, 103, 106, 50, 200}).Draw(t, label) / 100
+		}
+		im := &gen.Image{W: side("w"), H: side("h"), C: rapid.SampledFrom([]int{1, 3, 3, 4}).Draw(t, "c"),
+			P: rapid.SampledFrom([]int{7, 8, 8, 8, 8, 9}).Draw(t, "P"), Class: "noise", Seed: rapid.Uint64().Draw(t, "seed")}
+		cfg := &j2k.Config{Levels: lv, CBW: rapid.SampledFrom([]int{16, 32, 64}).Draw(t, "cbw"), CBH: rapid.SampledFrom([]int{16, 32, 64}).Draw(t, "cbh"),
+			Prog: rapid.IntRange(0, 4).Draw(t, "prog"), Layers: 1, MCT: rapid.Bool().Draw(t, "mct")}
+		if im.C != 3 {
+			cfg.MCT = false
+		}
+		return &Case{Enc: "j2k", Img: im, Cfg: cfg}
+	})
+	for k := 0; k < n; k++ {
+		if k%shards != shard {
+			continue
+		}
+		core.Eval(t, ID, "quota", g.Example(seed*1000003+k), Check)
+	}
+}
 func TestReplay(t *testing.T) { core.RunReplay(t, ID, &Case{}, Check) }
